@@ -117,7 +117,7 @@ std::vector<tlx::string_view>& split_view(std::vector<tlx::string_view>* into,
 
     tlx::string_view::const_iterator it = str.begin(), last = it;
 
-    for (; it + sep.size() < str.end(); ++it)
+    for (; static_cast<size_t>(str.end() - it) >= sep.size(); ++it)
     {
         if (std::equal(sep.begin(), sep.begin() + sep.size(), it))
         {
@@ -129,6 +129,8 @@ std::vector<tlx::string_view>& split_view(std::vector<tlx::string_view>* into,
 
             into->emplace_back(last, it);
             last = it + sep.size();
+            // continue scanning behind the separator
+            it = last - 1;
         }
     }
 
